@@ -16,6 +16,8 @@ package main
 //	if <MaxAmmoSize> != 0 { …; scanner.Buffer(buf, <MaxAmmoSize>) }        limit := if mas ≠ 0 then mas else limit
 //	scanner.Buffer(buf, CONST)                                             limit := CONST (go/types constant, e.g. math.MaxInt)
 //	scanner.Buffer(buf, <MaxAmmoSize>)                                     limit := mas
+//	the reading loop                                                        leaves the scanner at the end of its input: the next
+//	                                                                        reading loop must be reached with a scanner built since
 //	any other statement that mentions bufio.NewScanner / .Buffer( / assigns the scanner variable   unsupported
 //
 // Reading of Go trusted here: a bufio.Scanner keeps the limit it was given until the variable is assigned a new scanner;
@@ -37,6 +39,9 @@ type provloopsSize struct {
 	p   *packages.Package
 	ctx string
 	mas []string // source texts of the expression that is the MaxAmmoSize option
+	// the scanner the variable holds has been read to the end of its input (a bufio.Scanner that reported the end stays
+	// there: the next reading loop needs a fresh one)
+	stale bool
 }
 
 func (x *provloopsSize) src(n ast.Node) string { return provloopsSrcText(x.p, n) }
@@ -122,6 +127,7 @@ func (x *provloopsSize) walk(stmts []ast.Stmt, v string, lim *string, atLoop fun
 			if len(st.Lhs) == 1 && len(st.Rhs) == 1 && x.src(st.Lhs[0]) == v {
 				if l := x.limOfExpr(st.Rhs[0], depth); l != "" {
 					*lim = l
+					x.stale = false
 					continue
 				}
 				*lim = x.fail(s, "the scanner variable is assigned %s", x.src(st.Rhs[0]))
@@ -175,6 +181,10 @@ func (x *provloopsSize) walk(stmts []ast.Stmt, v string, lim *string, atLoop fun
 				if provloopsSizeMentions(x.src(st.Body), v) {
 					x.fail(s, "the reading loop changes its scanner")
 				}
+				if x.stale {
+					x.fail(s, "the reading loop is entered with a scanner that has already been read to the end of the file (no fresh scanner after the seek)")
+				}
+				x.stale = true
 				if atLoop != nil {
 					if *lim == "" {
 						*lim = x.fail(s, "the reading loop is reached before a scanner was built")
